@@ -6,6 +6,67 @@ claim("C19",
   "Does not decide that every request succeeds nor any property of particular interleavings; locks are identified by (struct type, field); sync and net semantics trusted.",
   "DESIGN.md §3 C19")
 
+
+claim("C04",
+  "guarded reachability over SSA (type guard, reply filter, post guard), argument-agreement tables, escape/call-site confinement, lockset",
+  "Decides from the source that only Call/Post can reach an implementation method (type guard in the generic stub + raw stubs never escape + stub methods only called from their Receive), that the reply filter compares service/object/action/id and is single-shot and registered before the send, that ids are advanced under a mutex, that error/reply headers carry the request's address and id in the right positions, and that no reply follows a Post once the method ran. Necessary conditions of exactly-one-own-answer; they hold on every path, hence for every schedule.",
+  "Does not decide exactly-once execution or own-result under interleavings (runtime); mailbox FIFO and net semantics trusted. Known finding D12 (malformed Post answered with Error) listed in known_findings.txt.",
+  "DESIGN.md §3 C04")
+
+claim("C06",
+  "guarded reachability over SSA + who-may-call / who-may-write closed lists + use-set (taint-style) of the client map",
+  "All clauses of the property are structural and are decided: the gate dominates routing on the same message and channel and refusal sends an error and closes; firewall's nil only across authenticated-or-service-0 regardless of type; closed, individually guarded list of SetAuthenticated callers and state-key writers; the client-supplied map is only looked up for user/token and never iterated, stored, merged or returned; the per-connection map is a fresh DefaultCap().",
+  "Authenticator implementations and TLS are trusted; locks/maps identified by type+field.",
+  "DESIGN.md §3 C06")
+
+claim("C10",
+  "ownership (who touches the stream / who calls raw Read-Write) + must-pass-once path rules over SSA + lockset",
+  "Decides that Message.Write hands its writer to exactly one WriteN call with the bytes of a private buffer filled header-then-payload, refuses size mismatch, that the endpoint's stream is only used by Send→Message.Write, process→Message.Read, Close and String, that process dispatches synchronously between reads, and that enqueueing is non-blocking, under the handler mutex and only on the matching filter.",
+  "Atomicity of one Write on each transport and per-sender ordering under all schedules are not decided.",
+  "DESIGN.md §3 C10")
+
+claim("C11",
+  "guarded reachability / must-pass path rules over SSA, channel-capacity and select-shape checks",
+  "Decides that every read error leads to closeWith(err) and leaves the loop, that shutdown closes the stream and every registered handler with the error, that the reply handler is registered before the send and removed on send failure, that every queue whose filter can match is buffered (dispatch never blocks), that client.Call waits on error channel, reply queue (closed ⇒ error) and cancel together, and that subscription channels are closed exactly once per goroutine exit.",
+  "'Bounded time', exactly-once firing under races and every fault position of every I/O call are runtime properties and not decided.",
+  "DESIGN.md §3 C11")
+
+claim("C12",
+  "call-graph reachability (CHA/VTA) from callbacks run under the endpoint lock + error-flow in generated stubs + guarded reachability",
+  "Decides that closers/filters (which run under handlersMutex) cannot re-acquire it or block, that dispatch never blocks and answers a full-queue Call with an Error, that every argument-decoding error in a generated stub becomes SendError without calling the method, that unknown service/object/action are answered, that removal entry points delete exactly the id named, and that no explicit panic is reachable from a Receive implementation.",
+  "Liveness under floods, implicit panics and C07's unbounded allocations are not decided. Known finding D10 (self-deadlock through signal/disconnect closers, two instances, both reproduced) listed in known_findings.txt.",
+  "DESIGN.md §3 C12")
+
+claim("C13",
+  "guarded reachability over SSA (filters, selection, reference counts), lockset guarded-by, goroutine/close shape checks",
+  "Decides that events are selected by equality of service/object/action (client) and signal id (server), that the registration table is mutex-protected with removal restricted to the caller's own entry and duplicate ids refused, that remote register/unregister happen exactly on the 0↔1 transitions of the local count under one key, and that each subscription has one sequential forwarding goroutine closing the channel once per exit (client.Subscribe and every generated Subscribe*).",
+  "Exactly-once/in-order delivery across subscribe–emit–unsubscribe interleavings is not decided.",
+  "DESIGN.md §3 C13")
+
+claim("C14",
+  "guarded reachability and must-pass-once path rules over SSA, lockset guarded-by, error-flow in generated property code",
+  "Decides validate→save→notify (save and event only across a nil verdict, once each, save first, same bytes) in both the client-write and service-write paths, that the property table is mutex-protected and Property returns what saveProperty stored, that generated onPropertyChange never calls the validator on undecodable bytes and generated getters compare the signature before decoding.",
+  "Linearizability of concurrent get/set histories is not decided.",
+  "DESIGN.md §3 C14")
+
+claim("C15",
+  "lockset guarded-by + guarded reachability and must-pass path rules over SSA",
+  "Decides that the registry state is only touched under its mutex on both the mailbox and the direct path, that ids only increase and the id handed out is read after the increment, that a name present in staging or services refuses registration before the insert, that services[id] is only filled from staging[id] (deleted) or by a name/id-preserving guarded update, that lookup/list never read staging, and that added/removed are emitted exactly once per transition with the entry's id and name and nowhere else.",
+  "Linearizability and sequential conformance to a reference model are runtime properties and not decided.",
+  "DESIGN.md §3 C15")
+
+claim("C16",
+  "lockset (pairing, guarded-by) + table-agreement within critical sections + guarded reachability over SSA",
+  "Decides that object and mailbox tables change together under the same key in one critical section, that Remove deletes a found entry under the exclusive lock and runs OnTerminate exactly once on it outside the lock, that unknown ids are errors, that Add stores only under an id whose lookup failed, and that OnTerminate tells every remaining subscriber.",
+  "Behaviour under concurrent add/remove/terminate histories is not decided. Known finding D18 (Add on a session-less service creates no mailbox) listed in known_findings.txt.",
+  "DESIGN.md §3 C16")
+
+claim("C17",
+  "ownership/typestate invariants: who closes / sends / fills slots (closed lists), lockset, guarded reachability, call-graph re-entrancy",
+  "Decides seven invariants that together imply at-most-once close after the callback on every path and for every interleaving (all table accesses are under one mutex): single closer site after the callback; closeWith only on non-nil slots under the mutex with the slot cleared before release; slots filled only by MakeHandler with a fresh handler into a nil slot; the only send is dispatch's non-blocking one under the mutex; private queues per registration; RemoveHandler errors for unknown/removed ids; callbacks do not re-enter the mutex.",
+  "Handlers registered while shutdown runs and general deadlock freedom are not decided. Known finding D10 listed in known_findings.txt.",
+  "DESIGN.md §3 C17")
+
 _pending = "check not implemented yet in this revision of /verif (design in DESIGN.md §3); not claimed until its rules exist and are validated"
 for pid in ["C01","C02","C03","C04","C06","C07","C08","C09","C10","C11","C12","C13","C14","C15","C16","C17","C18","C20"]:
     if pid not in CLAIMED:
